@@ -42,6 +42,10 @@ constructor = XPath2Parser.constructor
 @constructor('ENTITY')
 @constructor('anyURI')
 def cast__string_types(self: XPathConstructor, value: ta.AtomicType) -> str | AnyURI:
+    if self.symbol != 'anyURI' and not isinstance(value, (str, UntypedAtomic, AnyURI)):
+        # TV is cast to xs:string first: use the canonical representation of the value
+        value = self.string_value(value)
+
     try:
         result = cast(str | AnyURI, self.type_class.make(value))
     except ValueError as err:
@@ -467,6 +471,8 @@ def evaluate__datetime_type_and_function(self: XPathConstructor, context: ta.Con
 
 @constructor('untypedAtomic')
 def cast__untyped_atomic(self: XPathConstructor, value: ta.AtomicType) -> UntypedAtomic:
+    if not isinstance(value, (str, UntypedAtomic)):
+        value = self.string_value(value)  # the same string as the cast to xs:string
     return UntypedAtomic(value)
 
 
